@@ -553,12 +553,13 @@ Lemma step_eq s e fresh bserial :
 Proof.
   destruct e.
   - unfold step, step_pre. destruct (conns s !! c); reflexivity.
-  - reflexivity.
-  - unfold step, step_pre. fold (m_init s). destruct (handle _ _ _ _ _); reflexivity.
-  - reflexivity.
-  - reflexivity.
-  - reflexivity.
-  - unfold step, step_pre, drop_task. destruct (conns s !! c); reflexivity.
+  - unfold step, step_pre, m_init. cbv beta iota zeta. reflexivity.
+  - unfold step, step_pre. fold (m_init s). cbv beta iota zeta.
+    destruct (handle _ _ _ _ _); reflexivity.
+  - unfold step, step_pre, queue_all, m_init. cbv beta iota zeta. reflexivity.
+  - unfold step, step_pre, m_init. cbv beta iota zeta. reflexivity.
+  - unfold step, step_pre, m_init. cbv beta iota zeta. reflexivity.
+  - unfold step, step_pre, drop_task, m_init. cbv beta iota zeta. destruct (conns s !! c); reflexivity.
 Qed.
 
 Lemma queue_all_ms s : ms (queue_all s) = s.
@@ -570,6 +571,12 @@ Proof.
   unfold queue_all. apply (foldr_inv (fun m => mo m = [])); [|reflexivity]. intros m x _ Hm. exact Hm.
 Qed.
 
+Lemma settle_not_fail fuel m m' : settle fuel m <> Fail m'.
+Proof.
+  revert m. induction fuel as [|fuel IH]; intros m; rewrite settle_unfold;
+    destruct (settle_one m) as [[?|?|?]|]; try discriminate; apply IH.
+Qed.
+
 (* a step's result comes out of [settle] run on the result of [step_pre] *)
 Lemma step_inv s e fresh b s' o :
   step s e fresh b = Done (s', o) ->
@@ -579,9 +586,7 @@ Proof.
   rewrite step_eq. destruct (step_pre s e fresh b) as [m|m|?] eqn:E; [| |discriminate].
   - destruct (settle _ m) as [m'|m'|?] eqn:E2; [| |discriminate]; intros [= <- <-].
     + eauto 10.
-    + exfalso. revert E2. generalize (fuel_for (ms m)). intros fuel. revert m E.
-      induction fuel as [|fuel IH]; intros m _; rewrite settle_unfold;
-        destruct (settle_one m) as [[?|?|?]|]; try discriminate; eauto.
+    + exfalso. by eapply settle_not_fail.
   - exfalso. destruct e; cbn in E; try discriminate.
     + destruct (conns s !! c); discriminate.
     + destruct (handle _ _ _ _ _); discriminate.
